@@ -88,6 +88,7 @@ class PySrv(object):
         self.modes_synced = set()   # channels (lowered) whose 324 / ban list reached the bot since it joined
         self.bans_synced = set()
         self.pending = []           # the bot's unanswered queries, oldest first: ('w'|'m'|'b', channel)
+        self.open_batch = None      # reference of the batch the server is currently sending
 
     # -- lookups
     def uid(self, nick):
@@ -229,6 +230,26 @@ class PySrv(object):
 
     # -- transitions: returns the list of events for the bot
     def step(self, a):
+        """one action; while a batch is open every message is tagged with its reference: ('T', ref, pfx, cmd, args)"""
+        k = a[0]; S = self.cfg['server']
+        if k == 'batchopen':
+            _, ref, ty, args = a
+            if self.cfg.get('batch', True) and self.open_batch is None and valid_param(ref) and valid_param(ty) and all(valid_param(x) for x in args):
+                self.open_batch = ref
+                return [('M', S, 'BATCH', ['+' + ref, ty] + list(args))]
+            return []
+        if k == 'batchclose':
+            if self.open_batch is None: return []
+            ref = self.open_batch; self.open_batch = None
+            return [('M', S, 'BATCH', ['-' + ref])]
+        ob = self.open_batch
+        evs = self.step_plain(a)
+        if k == 'reconnect':            # a new connection ends whatever batch was being sent; its welcome is not part of it
+            if evs: self.open_batch = None
+            return evs
+        return [(('T', ob) + tuple(e[1:]) if (ob is not None and e[0] == 'M') else e) for e in evs]
+
+    def step_plain(self, a):
         k = a[0]; S = self.cfg['server']
         if k == 'connect':
             _, n, i, h = a
@@ -382,6 +403,7 @@ class PySrv(object):
         return {'nick': self.botnick(), 'chans': chans, 'hosts': hosts,
                 'told': {low(self.users[i].nick): self.users[i].mask() for i in self.told},
                 'modes_synced': set(self.modes_synced), 'bans_synced': set(self.bans_synced), 'pending': list(self.pending),
+                'open_batch': self.open_batch,
                 'prefix': self.users[self.bot].mask() if any(self.bot in c.members for c in self.chans.values()) else None}
     def spec_gaps(self):
         """completeness of the specification itself: once every query of the bot is answered, every channel of the
@@ -412,7 +434,7 @@ def view_text(v):
     return ('N=' + wire.enc(v['nick']) + ' C=' + ' '.join(sorted(cs)) + ' H=' +
             ','.join(sorted(wire.enc(k) + '=' + wire.enc(m) for k, m in v['hosts'].items())) +
             ' T=' + enc_set(v['told']) + ' MS=' + enc_set(v['modes_synced']) + ' BS=' + enc_set(v['bans_synced']) +
-            ' Q=' + ','.join(k + wire.enc(c) for k, c in v['pending']))
+            ' Q=' + ','.join(k + wire.enc(c) for k, c in v['pending']) + ' OB=' + wire.enc_opt(v['open_batch']))
 
 def enc_msgs(ms):
     return '-' if not ms else ';'.join(wire.enc(c) + ':' + wire.enc_list(a) for c, a in ms)
@@ -431,12 +453,15 @@ class Real(object):
     def reset(self):
         self.irc.reset()
         self.irc.queue.reset(); self.irc.fastqueue.reset()
-    def make(self, pfx, cmd, args, raw=False):
+    def make(self, pfx, cmd, args, raw=False, tag=None):
         M = self.b.ircmsgs.IrcMsg
+        tags = {} if tag is None else {'batch': tag}
         if raw:
-            return M(prefix=pfx, command=cmd, args=tuple(args))
-        m = M(prefix=pfx, command=cmd, args=tuple(args))
+            return M(prefix=pfx, command=cmd, args=tuple(args), server_tags=tags)
+        m = M(prefix=pfx, command=cmd, args=tuple(args), server_tags=tags)
         m2 = M(str(m))        # what the driver would parse from the wire
+        if dict(m2.server_tags) != tags:
+            raise RuntimeError('batch tag does not survive serialisation: %r' % (tags,))
         if (m2.prefix, m2.command, tuple(m2.args)) != (pfx, cmd, tuple(args)):
             raise RuntimeError('reference server emitted an unserialisable message %r' % ((pfx, cmd, args),))
         return m2
@@ -445,7 +470,10 @@ class Real(object):
         if ev[0] == 'R':
             self.reset(); return 'ok', []
         del self.logged[:]
-        self.irc.feedMsg(self.make(ev[1], ev[2], ev[3], raw=raw))
+        if ev[0] == 'T':
+            self.irc.feedMsg(self.make(ev[2], ev[3], ev[4], raw=raw, tag=ev[1]))
+        else:
+            self.irc.feedMsg(self.make(ev[1], ev[2], ev[3], raw=raw))
         sent = []
         for _ in range(50):
             m = self.irc.takeMsg()
@@ -470,7 +498,8 @@ class Real(object):
         sup = st.supported
         isup = (('s' + wire.enc_opt(sup['chantypes'])) if 'chantypes' in sup else '~') + '/' + \
                (('n' if sup['channellen'] is None else str(sup['channellen'])) if 'channellen' in sup else '~')
-        return {'nick': irc.nick, 'prefix': irc.prefix, 'chans': chans, 'hosts': hosts, 'isup': isup}
+        return {'nick': irc.nick, 'prefix': irc.prefix, 'chans': chans, 'hosts': hosts, 'isup': isup,
+                'batches': sorted(st.batches.keys())}
 
 def dump_text(s):
     """format of C10.dumpBot"""
@@ -480,7 +509,8 @@ def dump_text(s):
                   ';b=' + enc_set(c['b']) + ';t=' + wire.enc(c['t']) + ';m=' +
                   ','.join(sorted(wire.enc(m) + ':' + wire.enc_opt(x) for m, x in c['m'].items())) + ';c=' + str(c['c']) + ')')
     return ('N=' + wire.enc(s['nick']) + ' P=' + wire.enc(s['prefix']) + ' C=' + ' '.join(sorted(cs)) + ' H=' +
-            ','.join(sorted(wire.enc(k) + '=' + wire.enc(m) for k, m in s['hosts'].items())) + ' I=' + s['isup'])
+            ','.join(sorted(wire.enc(k) + '=' + wire.enc(m) for k, m in s['hosts'].items())) + ' I=' + s['isup'] +
+            ' B=' + enc_set(s['batches']))
 
 class ModeDiff(str):
     """a difference confined to a channel's modes dict (keeps both dicts for the finding classifier)"""
@@ -550,17 +580,21 @@ def act_line(a):
     if k == 'modeis': return 'act\tmodeis\t%s' % wire.enc(a[1])
     if k == 'banlist': return 'act\tbanlist\t%s' % wire.enc(a[1])
     if k == 'serve': return 'act\tserve'
+    if k == 'batchopen': return 'act\tbatchopen\t%s\t%s\t%s' % (wire.enc(a[1]), wire.enc(a[2]), wire.enc_list(a[3]))
+    if k == 'batchclose': return 'act\tbatchclose'
     if k == 'reconnect': return 'act\treconnect'
     raise ValueError(a)
 
 def enc_ev(ev):
-    return 'R' if ev[0] == 'R' else 'M' + wire.enc(ev[1]) + ':' + wire.enc(ev[2]) + ':' + wire.enc_list(ev[3])
+    if ev[0] == 'R': return 'R'
+    if ev[0] == 'T': return 'T' + wire.enc(ev[1]) + ':' + wire.enc(ev[2]) + ':' + wire.enc(ev[3]) + ':' + wire.enc_list(ev[4])
+    return 'M' + wire.enc(ev[1]) + ':' + wire.enc(ev[2]) + ':' + wire.enc_list(ev[3])
 
 def init_line(cfg):
     b = lambda x: '1' if x else '0'
-    return 'init\t%s\t%s\t%s\t%s\t%s\t%s\t%s\t%s\t%s\t%d\t%s\t%s' % (wire.enc(cfg['server']), b(cfg['multiPrefix']), b(cfg['uhnames']), b(cfg['extJoin']),
-            b(cfg['chghost']), b(cfg['whox']), wire.enc(cfg['botNick']), wire.enc(cfg['botIdent']), wire.enc(cfg['botHost']), cfg['namesPerLine'],
-            wire.enc(cfg.get('chantypes', '#&')), wire.enc(str(cfg.get('channellen', 50))))
+    return 'init\t' + '\t'.join([wire.enc(cfg['server']), b(cfg['multiPrefix']), b(cfg['uhnames']), b(cfg['extJoin']), b(cfg['chghost']),
+            b(cfg['whox']), b(cfg.get('batch', True)), wire.enc(cfg['botNick']), wire.enc(cfg['botIdent']), wire.enc(cfg['botHost']),
+            str(cfg['namesPerLine']), wire.enc(cfg.get('chantypes', '#&')), wire.enc(str(cfg.get('channellen', 50)))])
 
 # ------------------------------------------------------------------------------------------
 # generators
@@ -589,7 +623,7 @@ FLAGS = 'imnpstrCR'
 
 def gen_cfg(r, kind):
     return {'server': r.choice(['irc.srv', 'hub.example.net']), 'multiPrefix': True if kind != 'nomp' else False,
-            'uhnames': r.random() < 0.4, 'extJoin': r.random() < 0.4, 'chghost': r.random() < 0.8, 'whox': r.random() < 0.6,
+            'uhnames': r.random() < 0.4, 'extJoin': r.random() < 0.4, 'chghost': r.random() < 0.8, 'whox': r.random() < 0.6, 'batch': r.random() < 0.7,
             'botNick': 'test', 'botIdent': 'limnoria', 'botHost': r.choice(['bot.host', 'Bot/Cloak']),
             'namesPerLine': r.choice([1, 2, 3, 50]), 'chantypes': r.choice(['#&', '#&!+', '&#']), 'channellen': r.choice([50, 64, 200])}
 
@@ -672,6 +706,10 @@ def gen_action(r, S, findings=False):
     botchans = [c for c in S.chans.values() if S.bot in c.members]
     if S.pending and r.random() < 0.35:
         return ('serve',)
+    if S.open_batch is not None and r.random() < 0.2:
+        return ('batchclose',)
+    if S.open_batch is None and r.random() < 0.03:
+        return ('batchopen', r.choice(['ref1', 'yXNAbvnRHTRBv', 'bad ref']), r.choice(['netsplit', 'netjoin']), r.choice([[], ['irc.hub', 'irc.leaf']]))
     if not botchans and x < 0.5:
         return ('join', S.botnick(), [_some_chan(r, S, 0.02) for _ in range(r.choice([1, 1, 2, 3]))])
     x = r.random()
@@ -736,7 +774,7 @@ def gen_hostile(r, S):
     cmd = r.choice(HOSTILE_CMDS)
     me = S.botnick()
     if r.random() < 0.06:
-        return (S.cfg['server'], '005', [r.choice([me, 'x'])] + [r.choice(HOSTILE_005) for _ in range(r.randint(0, 4))] + ['are supported by this server'][:r.randint(0, 1)])
+        return (S.cfg['server'], '005', [r.choice([me, 'x'])] + [r.choice(HOSTILE_005) for _ in range(r.randint(0, 4))] + ['are supported by this server'][:r.randint(0, 1)], None)
     pf = r.choice([S.cfg['server'], S.cfg['server'], me, 'x', '', 'a!b@c', 'a!b@c!d@e', '!b@c', 'a!@c', 'a!b@', 'a b!c@d', 'a!b@c\n',
                    '%s!limnoria@bot.host' % me, '%s!o@p' % casevar(r, me)] + [u.mask() for u in S.users.values()])
     pool = ([me, casevar(r, me), '', '1', '2', '#chan', '#Chan', '&local', '#chan,#Dev', '#new', '#chan ', ' #chan', '#a b', 'nochan', '@', '=', '*', '+o', '-o', '+ov', '+k',
@@ -746,7 +784,10 @@ def gen_hostile(r, S):
     n = r.choice([0, 1, 2, 2, 3, 3, 4, 4, 5, 6, 8, 9, 9, 10])
     args = [r.choice(pool) for _ in range(n)]
     args = [a for a in args if valid_text(a)]
-    return (pf, cmd, args)
+    tag = r.choice([None, None, None, 'ref1', 'zz', S.open_batch or 'b2'])
+    if r.random() < 0.08:
+        return (S.cfg['server'], 'BATCH', [r.choice(['+ref1', '-ref1', '+b2', '-b2', '+', '-', 'ref1', '', '+zz'])] + [r.choice(['netsplit', 'x'])][:r.randint(0, 1)], tag)
+    return (pf, cmd, args, tag)
 
 # ------------------------------------------------------------------------------------------
 # one history on the implementation
@@ -770,7 +811,7 @@ def run_history(real, cfg, script, check=True):
                 _, sent = real.feed(ev)
                 sent_all += sent
                 dumps.append(dump_text(real.state()) + ' O=' + enc_msgs(sent))
-                tags.add('ev:' + (ev[2] if ev[0] == 'M' else 'reset'))
+                tags.add('ev:' + (ev[2] if ev[0] == 'M' else ('batched:' + ev[3]) if ev[0] == 'T' else 'reset'))
             S.enqueue(sent_all)
             nmsgs += len(evs)
             v = S.view()
@@ -786,7 +827,7 @@ def run_history(real, cfg, script, check=True):
                     fails.append((idx, d, modes_only))
         else:
             hostile_seen = True
-            lvl, sent = real.feed(('M',) + tuple(x), raw=True)
+            lvl, sent = real.feed((('M',) + tuple(x[:3])) if x[3] is None else (('T', x[3]) + tuple(x[:3])), raw=True)
             impl.append(lvl + '\t' + dump_text(real.state()) + ' O=' + enc_msgs(sent))
             tags.add('raw:' + x[1].upper() + ':' + lvl)
             nmsgs += 1
@@ -796,7 +837,7 @@ def script_lines(cfg, script):
     out = [init_line(cfg)]
     for what, x in script:
         if what == 'act': out.append(act_line(x))
-        else: out.append('msg\t%s\t%s\t%s' % (wire.enc(x[0]), wire.enc(x[1]), wire.enc_list(x[2])))
+        else: out.append('msg\t%s\t%s\t%s\t%s' % (wire.enc(x[0]), wire.enc(x[1]), wire.enc_list(x[2]), wire.enc_opt(x[3])))
     return out
 
 def gen_script(r, kind, length):
@@ -817,9 +858,11 @@ def gen_script(r, kind, length):
             me = S.users[S.bot].mask()
             for ev in S.step(a):
                 # predict the queries the bot will send (only to steer the generator; the run uses the real ones)
-                if ev[0] == 'M' and ev[2] == 'JOIN' and ev[1] == me:
-                    S.enqueue([('MODE', [ev[3][0]]), ('MODE', [ev[3][0], '+b']), ('WHO', [ev[3][0], '%tuhnairf,1'])])
-                if ev[0] == 'M': me = S.users[S.bot].mask()
+                if ev[0] == 'R': continue
+                pfx, cmd, args = ev[-3:]
+                if cmd == 'JOIN' and pfx == me:
+                    S.enqueue([('MODE', [args[0]]), ('MODE', [args[0], '+b']), ('WHO', [args[0], '%tuhnairf,1'])])
+                me = S.users[S.bot].mask()
             script.append(('act', a))
     return cfg, script
 
